@@ -28,6 +28,7 @@ class Scenario:
         self.nbar = 0
         self.flags = 0
         self.cyclic = False                        # ranks placed on the nodes round-robin instead of in blocks
+        self.placement = None                      # or: explicit node label per rank (any uniform placement)
 
     def cap(self):
         return self.bufkb * 1024
@@ -35,7 +36,7 @@ class Scenario:
     def text(self):
         out = ['# kind=%s n=%d ppn=%d routing=%s bufkb=%d nirecv=%d irecvkb=%d nisw=%d freq=%d eager=%d policy=%s seed=%d' % (
             self.kind, self.n, self.ppn, self.routing, self.bufkb, self.nirecv, self.irecvkb, self.nisw, self.freq, self.eager, self.policy, self.seed)
-               + (' placement=round-robin' if self.cyclic else '')]
+               + (' placement=round-robin' if self.cyclic else '') + (' placement=' + ','.join(map(str, self.placement)) if self.placement else '')]
         for r in range(self.n):
             out.append('main %d : %s' % (r, ' '.join(' '.join(map(str, a)) for a in self.main[r])))
         for u, acts in sorted(self.msg.items()):
@@ -356,6 +357,10 @@ def gen_cyclic(rng, idx):
                  seed=rng.randrange(1, 1 << 30), kind='cyclic', nirecv=rng.choice([2, 8]), nisw=rng.choice([0, 4]), freq=rng.choice([0, 8]),
                  eager=rng.choice([0, 4096]))
     s.cyclic = True
+    irregular = {(3, 2): [0, 1, 1, 2, 0, 2], (4, 2): [0, 1, 2, 3, 3, 2, 1, 0], (2, 3): [1, 0, 0, 1, 1, 0], (4, 3): [0, 1, 2, 3, 3, 2, 1, 0, 0, 1, 2, 3]}
+    if (idx // 8) % 2 == 1 and (nodes, ppn) in irregular:
+        # an irregular uniform placement: the nodes come in a different order for each on-node index
+        s.cyclic, s.placement = False, irregular[(nodes, ppn)]
     u = 100
     for r in range(n):
         if n <= 8 or rng.random() < 0.6:
@@ -405,7 +410,7 @@ def run_scenario(s, keep_logs=False, glog=False):
     scn = os.path.join(d, 'scenario.scn')
     with open(scn, 'w') as fh:
         fh.write(s.text())
-    r = simrun(exe, s.n, [scn], ppn=s.ppn, cyclic=s.cyclic, seed=s.seed, policy=s.policy, env=s.env(), eager=s.eager, logdir=d,
+    r = simrun(exe, s.n, [scn], ppn=s.ppn, cyclic=s.cyclic, placement=s.placement, seed=s.seed, policy=s.policy, env=s.env(), eager=s.eager, logdir=d,
                glog=os.path.join(d, 'glog') if glog else None, wall=40, spin=300000)
     notes = []
     for rk in range(s.n):
@@ -669,7 +674,16 @@ def oracle_layout(s, r):
     """The layout tables every rank built equal the placement's (ties Layout.block_layout / Bcast.placed_layout to layout.hpp)."""
     bad = []
     n, p = s.n // s.ppn, s.ppn
-    if getattr(s, 'cyclic', False):
+    if getattr(s, 'placement', None):
+        # nodes are numbered by their lowest rank, the ranks of a node by rank order
+        lab = s.placement
+        order = []
+        for x in lab:
+            if x not in order:
+                order.append(x)
+        members = {x: [q for q in range(s.n) if lab[q] == x] for x in order}
+        nd, lc, rk, name = (lambda x: order.index(lab[x])), (lambda x: members[lab[x]].index(x)), (lambda a, l: members[order[a]][l]), 'the given'
+    elif getattr(s, 'cyclic', False):
         nd, lc, rk, name = (lambda x: x % n), (lambda x: x // n), (lambda a, l: l * n + a), 'round-robin'
     else:
         nd, lc, rk, name = (lambda x: x // p), (lambda x: x % p), (lambda a, l: a * p + l), 'block'
